@@ -75,8 +75,14 @@ def _make_crs(
     crs_str = str(crs)
     crs_str_u = crs_str.upper()
     if crs_str_u.startswith("EPSG:"):
-        crs_str = crs_str_u
-        epsg = int(crs_str.split(":", 1)[1])
+        crs_str = crs_str_u.strip()
+        try:
+            # same spellings PROJ takes: ``EPSG:04326``, ``EPSG:4326\n``
+            epsg = int(crs_str.split(":", 1)[1])
+            crs_str = f"EPSG:{epsg}"
+        except ValueError:
+            # compound ``EPSG:<horizontal>+<vertical>``
+            pass
 
     return (crs, crs_str, epsg)
 
